@@ -79,9 +79,9 @@ def run_history(ctx, ops, blobs, use_async=False):
                 must_not_call = covered_by_history(done, op, blobs, dc.now)
                 out = sim.unprotect(blob, use_async=use_async)
                 if out != "done " + hx(pt):
-                    ctx.violation("unprotect on a shared cache does not return the plaintext a fresh cache returns", {"history": ops, "op": op}, out, "done " + hx(pt))
+                    ctx.violation("unprotect on a shared cache does not return the plaintext a fresh cache returns", {"history": ops, "op": op, "async": use_async}, out, "done " + hx(pt))
                 if must_not_call and sim.dc_calls != n0:
-                    ctx.violation("DC contacted again for a position already covered", {"history": ops, "op": op}, f"{sim.dc_calls - n0} GetKey call(s)", "0")
+                    ctx.violation("DC contacted again for a position already covered", {"history": ops, "op": op, "async": use_async}, f"{sim.dc_calls - n0} GetKey call(s)", "0")
             elif op in ("P", "Pn", "Pq"):
                 # "Pq": the caller is not a member of the target SID, so the DC hands out the group PUBLIC key only (nothing of it
                 # may serve later calls as seed material)
@@ -92,19 +92,19 @@ def run_history(ctx, ops, blobs, use_async=False):
                 finally:
                     dc.public_for = lambda sd: False
                 if not out.startswith("done "):
-                    ctx.violation("protect on a shared cache fails", {"history": ops, "op": op}, out, "done")
+                    ctx.violation("protect on a shared cache fails", {"history": ops, "op": op, "async": use_async}, out, "done")
                 else:
                     # the blob must decrypt (with a fresh cache + DC) to the same plaintext
                     s2 = clientsim.Sim(fresh_dc())
                     with s2.world():
                         back = s2.unprotect(bytes.fromhex(out[5:]))
                     if back != "done " + hx(b"data"):
-                        ctx.violation("blob produced on a shared cache does not decrypt to the plaintext", {"history": ops, "op": op}, back, "done " + hx(b"data"))
+                        ctx.violation("blob produced on a shared cache does not decrypt to the plaintext", {"history": ops, "op": op, "async": use_async}, back, "done " + hx(b"data"))
                 if op in ("P", "Pq") and "L" in done and sim.dc_calls != n0:
-                    ctx.violation("protect naming a loaded root key contacted the DC", {"history": ops}, "GetKey call", "0")
+                    ctx.violation("protect naming a loaded root key contacted the DC", {"history": ops, "async": use_async}, "GetKey call", "0")
             nk = getattr(sim.log, "nkdf", 0)
             if nk > 70:
-                ctx.violation("more than 70 KDF calls in one step", {"history": ops, "op": op}, nk, "≤ 70")
+                ctx.violation("more than 70 KDF calls in one step", {"history": ops, "op": op, "async": use_async}, nk, "≤ 70")
             sim.dump()
             done.append(op)
     return sim.line()
@@ -177,6 +177,11 @@ def run(ctx):
             cases.append(run_history(ctx, list(ops), blobs))
             n += 1
             ctx.count(f"history_depth:{d}")
+    # the same through the async API (its glue is written out separately in the library): every history to depth 2 (3 in thorough)
+    for d in range(1, 4 if ctx.thorough else 3):
+        for ops in itertools.product(small, repeat=d):
+            cases.append(run_history(ctx, list(ops), blobs, use_async=True))
+            ctx.count(f"history_depth_async:{d}")
     for _ in range(400 if ctx.thorough else 60):
         ops = [rng.choice(ALPHABET) for _ in range(rng.randrange(5, 13))]
         cases.append(run_history(ctx, ops, blobs, use_async=rng.random() < 0.3))
@@ -281,7 +286,7 @@ def replay(ctx, payload):
     blobs = make_blobs()
     c2 = type(ctx)(ctx.prop, "quick", ctx.seed)
     if "history" in v:
-        run_history(c2, v["history"], blobs)
+        run_history(c2, v["history"], blobs, use_async=v.get("async", False))
     else:
         sim, results, begun, fin_order = run_async_gather(c2, v["calls"], tuple(v["completion_order"]), blobs, False)
         for i, op in enumerate(v["calls"]):
